@@ -213,7 +213,14 @@ def split_extra(prop, tier, seed):
         # every other registry runs over a base listener that reports its closure with an error of its own
         # every third registry requests some of its sub-listeners only after Start is running
         late = [n for j, n in enumerate(reg) if i % 3 == 1 and j % 2 == 0]
-        ops = [dict(op="Config", reg=reg, native=native, closeErr=("custom" if i % 2 else "std"), late=late)] + [dict(op="Client", kind=k, extras=e) for (k, e) in clients] + [dict(op="CloseBase")]
+        cl = [dict(op="Client", kind=k, extras=e) for (k, e) in clients]
+        # a node with a large client state (many more ALPN chunks) offering its protocols, and - half way - a second,
+        # option-less lookup of every registered sub-listener
+        cl.insert(4, dict(op="Client", kind="node", extras=[LONG], st="big"))
+        cl.insert(9, dict(op="Client", kind="node", extras=["sp1"], st="big"))
+        half = len(cl) // 2
+        cl = cl[:half] + [dict(op="Lookup", name=n) for n in reg] + cl[half:]
+        ops = [dict(op="Config", reg=reg, native=native, closeErr=("custom" if i % 2 else "std"), late=late)] + cl + [dict(op="CloseBase")]
         out.append(dict(id="reg%d" % i, ops=ops))
     return out
 
